@@ -37,6 +37,7 @@ int main(int argc, char **argv)
         return 0;
     }
     if (m == "recs" && argc >= 4) return recsMode(argv[2], argv[3]);
+    if (m == "repeat" && argc >= 4) return repeatMode(argv[2], argv[3]);
     if (m == "gen" && argc >= 6) return genMode(atoi(argv[2]), strtoull(argv[3], 0, 10), argv[4], argv[5]);
     return 2;
 }
